@@ -67,7 +67,10 @@ Inductive post := PostNone | PostUnsqueeze (n : nat) | PostReshapeOnes.
 
 Record red_out := { ro_bs : shape; ro_names : names_t; ro_call : leafcall; ro_post : post }.
 
-Definition cast_reduction (bs : shape) (names : names_t) (dim : dimarg) (kd : kdarg)
+(* [true] = /repo with fixes/C09/D43-D44, D45, D46, D47 applied; [false] = /repo before them *)
+Definition fixed_reduce : bool := true.
+
+Definition cast_reduction (fx : bool) (bs : shape) (names : names_t) (dim : dimarg) (kd : kdarg)
            (tuple_ok call_on_nested : bool) (bs_override : option shape) : res red_out :=
   let nb := List.length bs in
   match proc_dim dim nb tuple_ok with
@@ -80,7 +83,7 @@ Definition cast_reduction (bs : shape) (names : names_t) (dim : dimarg) (kd : kd
       let dim_given := match d with PNoDefault => false | _ => true end in
       if dim_given || kd_truthy kd then
         let is_tuple := match d with PTuple _ => true | _ => false end in
-        let names' :=
+        let names_old :=
           match names with
           | None => None
           | Some ns =>
@@ -88,6 +91,20 @@ Definition cast_reduction (bs : shape) (names : names_t) (dim : dimarg) (kd : kd
                     then filter_idx (fun i => negb (match d with PTuple l => nat_in i l | _ => false end)) ns
                     else filter_idx (idx_neq_dim d) ns)
           end in
+        (* D43/D44: a name goes only when its dim goes (no keepdim, no batch_size override); dim=None drops all *)
+        let names_new :=
+          match names with
+          | None => None
+          | Some ns =>
+              if negb (kd_truthy kd) && negb (match bs_override with Some _ => true | None => false end)
+              then match d with
+                   | PNone => None
+                   | PTuple l => Some (filter_idx (fun i => negb (nat_in i l)) ns)
+                   | _ => Some (filter_idx (idx_neq_dim d) ns)       (* `i not in (dim,)` *)
+                   end
+              else Some ns
+          end in
+        let names' := if fx then names_new else names_old in
         let bs' :=
           match bs_override with
           | Some b => b
@@ -97,7 +114,8 @@ Definition cast_reduction (bs : shape) (names : names_t) (dim : dimarg) (kd : kd
                             else filter_idx (fun i => negb (nat_in i l)) bs
               | PInt z => if kd_truthy kd then map_idx_from (fun i b => if Z.eqb (Z.of_nat i) z then 1 else b) 0 bs
                           else filter_idx (fun i => negb (Z.eqb (Z.of_nat i) z)) bs
-              | _ => map (fun _ => 1) bs                                   (* dim None, or keepdim without dim *)
+              | _ => if fx && negb (kd_truthy kd) then []               (* D44: dim=None without keepdim *)
+                     else map (fun _ => 1) bs                            (* dim None, or keepdim without dim *)
               end
           end in
         Ok {| ro_bs := bs'; ro_names := names'; ro_call := LcDim d kd; ro_post := PostNone |}
@@ -106,7 +124,8 @@ Definition cast_reduction (bs : shape) (names : names_t) (dim : dimarg) (kd : kd
 
 (* ---------- front-ends ---------- *)
 Inductive redop := RTuple      (* sum nansum mean nanmean std var : tuple_ok, applied to nested nodes *)
-                 | RSingle     (* amin amax min max             : tuple_ok=False, keepdim defaults to False *)
+                 | RSingle     (* min max                       : tuple_ok=False, keepdim defaults to False *)
+                 | RAminmax    (* amin amax                     : like RSingle; tuple_ok since the D45 patch *)
                  | RCum        (* cummin cummax                 : tuple_ok=False, batch_size=self.batch_size *)
                  | RProd.      (* prod                          : keepdim emulated by unsqueeze / reshape *)
 
@@ -117,7 +136,7 @@ Fixpoint insert_at {A} (n : nat) (x : A) (l : list A) : list A :=
   | S n', y :: r => y :: insert_at n' x r
   | S _, [] => [x]
   end.
-Definition td_unsqueeze (bs : shape) (names : names_t) (d : Z) : res (shape * names_t * nat) :=
+Definition td_unsqueeze (fx : bool) (bs : shape) (names : names_t) (d : Z) : res (shape * names_t * nat) :=
   let nb := Z.of_nat (List.length bs) in
   let nd := if (d <? 0)%Z then (nb + d + 1)%Z else d in
   if ((nd >? nb) || (nd <? 0))%Z then Raised else
@@ -125,16 +144,18 @@ Definition td_unsqueeze (bs : shape) (names : names_t) (d : Z) : res (shape * na
   Ok (insert_at n 1 bs,
       match names with
       | Some (x :: r) => Some (insert_at n None (x :: r))
-      | other => other                                                     (* `if names:` — [] stays [] *)
+      | Some [] => if fx then Some (insert_at n None []) else Some []      (* before D47: `if names:` — [] stays [] *)
+      | None => None
       end, n).
 
-Definition front (op : redop) (bs : shape) (names : names_t) (dim : dimarg) (kd : kdarg) : res red_out :=
+Definition front (fx : bool) (op : redop) (bs : shape) (names : names_t) (dim : dimarg) (kd : kdarg) : res red_out :=
   match op with
-  | RTuple => cast_reduction bs names dim kd true true None
-  | RSingle => cast_reduction bs names dim (match kd with KdNoDefault => KdFalse | k => k end) false false None
-  | RCum => cast_reduction bs names dim KdNoDefault false false (Some bs)
+  | RTuple => cast_reduction fx bs names dim kd true true None
+  | RSingle => cast_reduction fx bs names dim (match kd with KdNoDefault => KdFalse | k => k end) false false None
+  | RAminmax => cast_reduction fx bs names dim (match kd with KdNoDefault => KdFalse | k => k end) fx false None
+  | RCum => cast_reduction fx bs names dim KdNoDefault false false (Some bs)
   | RProd =>
-      match cast_reduction bs names dim KdFalse false true None with
+      match cast_reduction fx bs names dim KdFalse false true None with
       | Raised => Raised
       | Ok r =>
           if kd_truthy kd then
@@ -150,13 +171,13 @@ Definition front (op : redop) (bs : shape) (names : names_t) (dim : dimarg) (kd 
             | _ =>
               match d0 with
               | Some z =>
-                  if Z.eqb z 0
+                  if negb fx && Z.eqb z 0       (* before D46: `0 in (None, NO_DEFAULT)` is True *)
                   then (* result.reshape([1 for _ in self.shape]) *)
                        if Nat.eqb (fold_right Nat.mul 1 (ro_bs r)) 1
                        then Ok {| ro_bs := map (fun _ => 1) bs; ro_names := None; ro_call := ro_call r;
                                   ro_post := PostReshapeOnes |}
                        else Raised
-                  else match td_unsqueeze (ro_bs r) (ro_names r) z with
+                  else match td_unsqueeze fx (ro_bs r) (ro_names r) z with
                        | Ok (b, n, pos) => Ok {| ro_bs := b; ro_names := n; ro_call := ro_call r;
                                                   ro_post := PostUnsqueeze pos |}
                        | Raised => Raised
